@@ -43,6 +43,12 @@ BOX = 10
 # forking comparisons for the solver's work arrays, decision margin.
 
 _STATE = {"margin": False, "const_cache": {}}
+MAX_UNDECIDED = 3         # feasibility 'unknown' this often on one path: the path is abandoned and reported (exit 3)
+CASE_BUDGET_S = {"quick": 240, "thorough": 1500}
+
+
+class Undecided(Exception):
+    pass
 
 
 def _rat(x):
@@ -229,7 +235,10 @@ def _install():
                 continue
             w = V.rval(width)
             self._add(z3.Or(t >= w, t <= -w))
-        return orig_decide(self, c, payload_fn)
+        r = orig_decide(self, c, payload_fn)
+        if self.stats.feas_unknown - _STATE.get("fu0", 0) >= MAX_UNDECIDED:
+            raise Undecided("the solver could not decide the feasibility of %d branches on one path" % MAX_UNDECIDED)
+        return r
 
     Explorer.decide = decide
 
@@ -406,11 +415,24 @@ def _guarded(ctx, fn):
     iterating) is an unwinding-assertion failure: a model of its path condition becomes a counterexample candidate
     that the replay judges on the real code.  Infeasible paths under the margin policy are reported, never silent."""
     from symx.explore import BoundExceeded, PathAbort, Candidate
+    import time
     if sum(1 for c in ctx.stats.candidates if c.known is None) >= ctx.max_candidates:
         raise PathAbort()           # enough counterexamples for this case: stop exploring
+    if getattr(ctx, "_t0", None) is None:
+        ctx._t0 = time.time()
+    if time.time() - ctx._t0 > CASE_BUDGET_S.get(os.environ.get("VERIF_TIER", "quick"), 240):
+        if not getattr(ctx, "_budget_reported", False):
+            ctx._budget_reported = True
+            ctx.stats.errors.append("case budget exhausted after %d paths: exploration incomplete" % ctx.stats.paths)
+        raise PathAbort()
     _STATE["margin"] = True
+    _STATE["fu0"] = ctx.stats.feas_unknown
     try:
         fn()
+    except Undecided as e:
+        _STATE["margin"] = False
+        ctx.stats.errors.append("path abandoned: %s" % e)
+        raise PathAbort()
     except BoundExceeded as e:
         _STATE["margin"] = False
         r, m = ctx._check()
